@@ -7,6 +7,7 @@ import Proofs.C11
 import Proofs.C12
 import Proofs.C13
 import Proofs.C14
+import Proofs.C15
 import Proofs.C16
 import Proofs.C17
 import Proofs.C18
